@@ -43,6 +43,7 @@ structure JobSt where
   cancelled : Bool := false         -- closed from created/queued, i.e. before it started
   dones : Nat := 0                  -- wg.Done / WgCounter.Done performed on its behalf
   hist : List Nat := [0]            -- ghost: every value the status word has held, newest first
+  parsedFinished : Bool := false    -- ghost: created by parseToJob from an envelope that says "Finished"
   deriving Repr, Inhabited
 
 structure BatchSt where
@@ -152,7 +153,7 @@ def step (s : State) : Ev → Except String State
     if !js.exist then .error "status of an unknown job"
     else if js.hist != [0] || js.claimer.isSome then .error "parsed status stored on a job in use"
     else if v > closed then .error "invalid status value"
-    else .ok { s with jobs := upd s.jobs j (setSt js v) }
+    else .ok { s with jobs := upd s.jobs j { setSt js v with parsedFinished := v == finished } }
   | .ldClaim g j v =>
     let js := s.jobs j
     if !js.exist then .error "claim on an unknown job"
@@ -164,6 +165,7 @@ def step (s : State) : Ev → Except String State
     let js := s.jobs j
     if (s.loc g).ld != some (j, old) then .error "claim: CAS without the matching load"
     else if js.claimer != some g then .error "claim: CAS by a goroutine that is not the claimer"
+    else if js.claims != 0 then .error "claim: CAS on a job that was already claimed"
     else if old == closed then .error "claim: CAS on a closed job"
     else if ok != (js.st == old) then .error s!"claim: CAS result {ok}, status is {js.st}"
     else if ok then
@@ -223,6 +225,7 @@ def step (s : State) : Ev → Except String State
       if b' != b || c != old then .error "WgCounter.Done: CAS without the matching load"
       else if old == 0 then .error "WgCounter.Done: CAS from 0"
       else if ok != (bs.count == old) then .error s!"WgCounter.Done: CAS result {ok}, count is {bs.count}"
+      else if ok && (s.loc g).owesWg.isSome then .error "goroutine still owes a batch wg.Done"
       else if ok then
         .ok { s with batches := upd s.batches b { bs with count := old - 1, doneItems := j :: bs.doneItems },
                      jobs := upd s.jobs j { s.jobs j with dones := (s.jobs j).dones + 1 },
